@@ -217,7 +217,8 @@ def crash_dry_task(task, wdir, res):
         time.sleep(0.3)   # reclaim runs in a spawned blocking task
         tr = node.meta("trace take")["trace"]
         pts = {}
-        for name, arg in tr:
+        for ent in tr:
+            name = ent[0]
             if name.split(".")[0] in ("cw", "mc", "ho", "rc", "zw", "idx"):
                 pts[name] = pts.get(name, 0) + 1
         res.add_set("plan", json.dumps([task["seed"], sorted(pts.items())]))
